@@ -26,7 +26,12 @@ IsF6(S, e) ==
   /\ LET p == PosOf(S, e.tx.a.vamm, e.tx.a.trader)
          u == PnL(S, e.tx.a.vamm, p, "spot")
          out == IF e.swaps[1].type = "output" THEN e.swaps[1].quote ELSE e.swaps[1].base
-     IN u.ok /\ p.margin < Abs(SDiv(u.pnl * S.eng.cfg.plr, S.eng.cfg.D)) + (out * S.eng.cfg.liqfee) \div S.eng.cfg.D
+         rp == Abs(SDiv(u.pnl * S.eng.cfg.plr, S.eng.cfg.D))      \* |realised share of the spot pnl|
+     IN u.ok /\ \/ p.margin < rp + (out * S.eng.cfg.liqfee) \div S.eng.cfg.D
+                \* ... or the same magnitude arithmetic underflows on the open notional: a long whose
+                \* slice is worth more than (open notional - |pnl share|), i.e. a long in profit
+                \/ (p.size > 0 /\ p.notional < out + rp)
+                \/ (p.size < 0 /\ rp + p.notional < out)
 
 (* F5: the liquidation replies size withdraw() from the vault balance read when the reply runs,
    before the transfers queued by the same reply (remaining margin / the fund's half of the
